@@ -327,15 +327,22 @@ def _rig_job(snapname):
         else:
             off_raw = a.items.index("OFF") if "OFF" in a.items else 0
             on_raw = max(i for i, x in enumerate(a.items) if x not in ("OFF", ""))
-        for cur_on, want_on in itertools.product((False, True), repeat=2):
-            rig.spa_set(tag, on_raw if cur_on else off_raw)
+        # every current state: OFF and EVERY running level the item has (a multi-level light: LO, MED, HI)
+        if a.type == "Bool":
+            levels = [0, 1]
+        else:
+            levels = [off_raw] + [i for i, x in enumerate(a.items) if x not in ("OFF", "") and i != off_raw]
+        for cur_raw, want_on in itertools.product(levels, (False, True)):
+            cur_on = cur_raw != off_raw
+            rig.spa_set(tag, cur_raw)
             if bool(sw.is_on) != cur_on:
-                note(("state", f"{sw.key}: spa item {tag} raw {on_raw if cur_on else off_raw} but is_on={sw.is_on}"), f"switch {sw.key}")
+                note(("state", f"{sw.key}: spa item {tag} raw {cur_raw} ({a.items[cur_raw] if a.items else cur_raw}) but is_on={sw.is_on}"),
+                     f"switch {sw.key}")
                 continue
             n += 1
             cmds, wire, err = rig.command((lambda: sw.async_turn_on()) if want_on else (lambda: sw.async_turn_off()))
             what = f"switch {sw.key}"
-            pre = f"{sw.key} {'on' if cur_on else 'off'}->{'on' if want_on else 'off'}"
+            pre = f"{sw.key} {(a.items[cur_raw] if a.items else cur_raw)}->{'on' if want_on else 'off'}"
             if err:
                 note(("engine", err), what)
                 continue
@@ -596,11 +603,13 @@ def _threaded_job(snapname):
         f = Field.of(a)
         off_raw = a.items.index("OFF") if a.type != "Bool" and "OFF" in a.items else 0
         on_raw = 1 if a.type == "Bool" else max(i for i, x in enumerate(a.items) if x not in ("OFF", ""))
-        for cur_on, want_on in itertools.product((False, True), repeat=2):
-            spa_set(tag, on_raw if cur_on else off_raw)
+        levels = [0, 1] if a.type == "Bool" else [off_raw] + [i for i, x in enumerate(a.items) if x not in ("OFF", "") and i != off_raw]
+        for cur_raw, want_on in itertools.product(levels, (False, True)):
+            cur_on = cur_raw != off_raw
+            spa_set(tag, cur_raw)
             n += 1
             cmds = run_cmd(sw.turn_on if want_on else sw.turn_off)
-            pre = f"{sw.key} {'on' if cur_on else 'off'}->{'on' if want_on else 'off'}"
+            pre = f"{sw.key} {(a.items[cur_raw] if a.items else cur_raw)}->{'on' if want_on else 'off'}"
             if cur_on == want_on:
                 if cmds:
                     note(("not-idempotent", f"{pre}: commands {cmds}"), f"switch {sw.key}")
